@@ -62,7 +62,7 @@ def parseOp (ns : Names) (s : String) : Names × Option Op :=
   | ["rep", i, u, t, r] =>
     let (ns', k) := intern ns t; (ns', some (.replace (parseIdx i) { uid := u.toNat!, ty := k, refs := parseRefs r }))
   | ["ord", p] => (ns, some (.setOrder (parseNatList p)))
-  | ["dbt", t, o] => let (ns', i) := intern ns t; (ns', some (.deleteByType i (o == "1")))
+  | ["dbt", t, o] => let (ns', i) := intern ns (t.replace "~~" "::"); (ns', some (.deleteByType i (o == "1")))
   | ["prune", r] => (ns, some (.prune (parseIdx r)))
   | _ => (ns, none)
 
